@@ -86,25 +86,198 @@ Proof.
   rewrite pad3_in by lia. reflexivity.
 Qed.
 
-(* smooth() on the 3-D buffer *)
+(* smooth() on the 3-D buffer; (w1, w2, w3) = self._kcenter *)
 Definition l1sum3 (k1 k2 k3 : Z) (kap : Z -> Z -> Z -> Q) : Q :=
   zsum (fun j1 => zsum (fun j2 => zsum (fun j3 => kap j1 j2 j3) (Z.to_nat k3)) (Z.to_nat k2)) (Z.to_nat k1).
 
-Definition smooth3 (n1 n2 n3 k1 k2 k3 : Z) (x kap : Z -> Z -> Z -> Q) (scale loc : Q) (p1 p2 p3 : Z) : Q :=
+Definition smooth3 (n1 n2 n3 k1 k2 k3 w1 w2 w3 : Z) (x kap : Z -> Z -> Z -> Q) (scale loc : Q) (p1 p2 p3 : Z) : Q :=
   (scale * (circ3 (buflen n1 k1) (buflen n2 k2) (buflen n3 k3) (pad3 n1 n2 n3 x) (pad3 k1 k2 k3 kap)
-              (p1 + win_start k1) (p2 + win_start k2) (p3 + win_start k3) / l1sum3 k1 k2 k3 kap) + loc)%Q.
+              (p1 + win_start w1) (p2 + win_start w2) (p3 + win_start w3) / l1sum3 k1 k2 k3 kap) + loc)%Q.
 
-Lemma smooth3_direct n1 n2 n3 k1 k2 k3 x kap scale loc p1 p2 p3 :
-  1 <= n1 -> 1 <= n2 -> 1 <= n3 -> 1 <= k1 -> 1 <= k2 -> 1 <= k3 ->
+(* np.unravel_index(np.argmax(kernel), kernel.shape) - NumPy oracle, by its contract:
+   an index of the array at which the array is maximal *)
+Definition is_argmax3 (k1 k2 k3 : Z) (kap : Z -> Z -> Z -> Q) (w1 w2 w3 : Z) : Prop :=
+  0 <= w1 < k1 /\ 0 <= w2 < k2 /\ 0 <= w3 < k3 /\
+  forall j1 j2 j3, 0 <= j1 < k1 -> 0 <= j2 < k2 -> 0 <= j3 < k3 -> (kap j1 j2 j3 <= kap w1 w2 w3)%Q.
+
+Lemma smooth3_direct n1 n2 n3 k1 k2 k3 w1 w2 w3 x kap scale loc p1 p2 p3 :
+  1 <= n1 -> 1 <= n2 -> 1 <= n3 -> 0 <= w1 < k1 -> 0 <= w2 < k2 -> 0 <= w3 < k3 ->
   0 <= p1 < n1 -> 0 <= p2 < n2 -> 0 <= p3 < n3 ->
-  (smooth3 n1 n2 n3 k1 k2 k3 x kap scale loc p1 p2 p3 ==
-   scale * (lin3 n1 n2 n3 k1 k2 k3 x kap (p1 + k1 / 2) (p2 + k2 / 2) (p3 + k3 / 2) / l1sum3 k1 k2 k3 kap) + loc)%Q.
+  (smooth3 n1 n2 n3 k1 k2 k3 w1 w2 w3 x kap scale loc p1 p2 p3 ==
+   scale * (lin3 n1 n2 n3 k1 k2 k3 x kap (p1 + w1) (p2 + w2) (p3 + w3) / l1sum3 k1 k2 k3 kap) + loc)%Q.
 Proof.
   intros N1 N2 N3 K1 K2 K3 P1 P2 P3. unfold smooth3, win_start.
-  pose proof (window_in_buffer n1 k1 p1 N1 K1 P1) as W1.
-  pose proof (window_in_buffer n2 k2 p2 N2 K2 P2) as W2.
-  pose proof (window_in_buffer n3 k3 p3 N3 K3 P3) as W3.
+  pose proof (window_in_buffer n1 k1 w1 p1 N1 K1 P1) as W1.
+  pose proof (window_in_buffer n2 k2 w2 p2 N2 K2 P2) as W2.
+  pose proof (window_in_buffer n3 k3 w3 p3 N3 K3 P3) as W3.
   unfold win_start in W1, W2, W3.
   rewrite (circ3_eq_lin3 n1 n2 n3 k1 k2 k3) by (try assumption; try apply buflen_nowrap; lia).
   reflexivity.
 Qed.
+
+(* ---------------- 3-D impulse response: any affine ---------------- *)
+Definition delta3 (q1 q2 q3 : Z) : Z -> Z -> Z -> Q :=
+  fun s1 s2 s3 => (delta q1 s1 * (delta q2 s2 * delta q3 s3))%Q.
+
+Lemma lin3_delta n1 n2 n3 k1 k2 k3 kap q1 q2 q3 t1 t2 t3 :
+  0 <= q1 < n1 -> 0 <= q2 < n2 -> 0 <= q3 < n3 ->
+  (lin3 n1 n2 n3 k1 k2 k3 (delta3 q1 q2 q3) kap t1 t2 t3 == pad3 k1 k2 k3 kap (t1 - q1) (t2 - q2) (t3 - q3))%Q.
+Proof.
+  intros Q1 Q2 Q3. unfold lin3, delta3.
+  rewrite (zsum_ext _ (fun s1 => delta q1 s1 *
+     zsum (fun s2 => delta q2 s2 * zsum (fun s3 => delta q3 s3 * pad3 k1 k2 k3 kap (t1 - s1) (t2 - s2) (t3 - s3)) (Z.to_nat n3)) (Z.to_nat n2))%Q).
+  2:{ intros s1 H1. rewrite <- zsum_scale. apply zsum_ext. intros s2 H2.
+      rewrite <- !zsum_scale. apply zsum_ext. intros s3 H3. ring. }
+  rewrite (zsum_delta (fun s1 => zsum (fun s2 => delta q2 s2 * zsum (fun s3 => delta q3 s3 * pad3 k1 k2 k3 kap (t1 - s1) (t2 - s2) (t3 - s3)) (Z.to_nat n3)) (Z.to_nat n2))%Q) by lia.
+  rewrite (zsum_delta (fun s2 => zsum (fun s3 => delta q3 s3 * pad3 k1 k2 k3 kap (t1 - q1) (t2 - s2) (t3 - s3)) (Z.to_nat n3))%Q) by lia.
+  rewrite (zsum_delta (fun s3 => pad3 k1 k2 k3 kap (t1 - q1) (t2 - q2) (t3 - s3))) by lia.
+  reflexivity.
+Qed.
+
+Section Profile3.
+  (* kernel[j] = G (j - c): G = the kernel as a function of the voxel offset vector from the
+     centre voxel - for ANY affine (diagonal, flipped, oblique) *)
+  Variable G : Z -> Z -> Z -> Q.
+  Hypothesis G_nonneg : forall d1 d2 d3, (0 <= G d1 d2 d3)%Q.
+  Hypothesis G_peak : forall d1 d2 d3, ~ (d1 = 0 /\ d2 = 0 /\ d3 = 0) -> (G d1 d2 d3 < G 0 0 0)%Q.
+
+  Definition kern3_of (c1 c2 c3 : Z) : Z -> Z -> Z -> Q := fun j1 j2 j3 => G (j1 - c1) (j2 - c2) (j3 - c3).
+
+  Lemma G0_pos : (0 < G 0 0 0)%Q.
+  Proof. pose proof (G_peak 1 0 0 ltac:(lia)). pose proof (G_nonneg 1 0 0). lra. Qed.
+
+  Lemma l1sum3_pos k1 k2 k3 c1 c2 c3 :
+    0 <= c1 < k1 -> 0 <= c2 < k2 -> 0 <= c3 < k3 -> (0 < l1sum3 k1 k2 k3 (kern3_of c1 c2 c3))%Q.
+  Proof.
+    intros C1 C2 C3. unfold l1sum3.
+    apply (zsum_pos _ _ c1); [|lia|].
+    - intros i1 H1. apply zsum_nonneg. intros i2 H2. apply zsum_nonneg. intros i3 H3. apply G_nonneg.
+    - apply (zsum_pos _ _ c2); [|lia|].
+      + intros i2 H2. apply zsum_nonneg. intros i3 H3. apply G_nonneg.
+      + apply (zsum_pos _ _ c3); [|lia|].
+        * intros i3 H3. apply G_nonneg.
+        * unfold kern3_of. rewrite !Z.sub_diag. apply G0_pos.
+  Qed.
+
+  (* whatever maximal index np.argmax returns, it is the centre voxel *)
+  Lemma argmax3_is_centre k1 k2 k3 c1 c2 c3 w1 w2 w3 :
+    0 <= c1 < k1 -> 0 <= c2 < k2 -> 0 <= c3 < k3 ->
+    is_argmax3 k1 k2 k3 (kern3_of c1 c2 c3) w1 w2 w3 -> w1 = c1 /\ w2 = c2 /\ w3 = c3.
+  Proof.
+    intros C1 C2 C3 (W1 & W2 & W3 & M).
+    destruct (Z.eq_dec w1 c1) as [E1|N1]; [destruct (Z.eq_dec w2 c2) as [E2|N2]; [destruct (Z.eq_dec w3 c3) as [E3|N3]|]|];
+      [auto| | |]; exfalso; pose proof (M c1 c2 c3 C1 C2 C3) as L; unfold kern3_of in L; rewrite !Z.sub_diag in L;
+      pose proof (G_peak (w1 - c1) (w2 - c2) (w3 - c3) ltac:(lia)); lra.
+  Qed.
+
+  (* the smoothed unit impulse at q has its strict maximum AT q: every grid, every crop, every affine *)
+  Lemma impulse3_centred n1 n2 n3 k1 k2 k3 c1 c2 c3 w1 w2 w3 q1 q2 q3 p1 p2 p3 :
+    1 <= n1 -> 1 <= n2 -> 1 <= n3 ->
+    0 <= c1 < k1 -> 0 <= c2 < k2 -> 0 <= c3 < k3 ->
+    is_argmax3 k1 k2 k3 (kern3_of c1 c2 c3) w1 w2 w3 ->
+    0 <= q1 < n1 -> 0 <= q2 < n2 -> 0 <= q3 < n3 ->
+    0 <= p1 < n1 -> 0 <= p2 < n2 -> 0 <= p3 < n3 ->
+    ~ (p1 = q1 /\ p2 = q2 /\ p3 = q3) ->
+    (smooth3 n1 n2 n3 k1 k2 k3 w1 w2 w3 (delta3 q1 q2 q3) (kern3_of c1 c2 c3) 1 0 p1 p2 p3 <
+     smooth3 n1 n2 n3 k1 k2 k3 w1 w2 w3 (delta3 q1 q2 q3) (kern3_of c1 c2 c3) 1 0 q1 q2 q3)%Q.
+  Proof.
+    intros N1 N2 N3 C1 C2 C3 AM Q1 Q2 Q3 P1 P2 P3 Hne.
+    destruct (argmax3_is_centre _ _ _ _ _ _ _ _ _ C1 C2 C3 AM) as (-> & -> & ->).
+    rewrite !smooth3_direct by assumption. rewrite !lin3_delta by assumption.
+    assert (S : (0 < l1sum3 k1 k2 k3 (kern3_of c1 c2 c3))%Q) by (apply l1sum3_pos; assumption).
+    assert (LT : (pad3 k1 k2 k3 (kern3_of c1 c2 c3) (p1 + c1 - q1) (p2 + c2 - q2) (p3 + c3 - q3) <
+                  pad3 k1 k2 k3 (kern3_of c1 c2 c3) (q1 + c1 - q1) (q2 + c2 - q2) (q3 + c3 - q3))%Q).
+    { rewrite (pad3_in k1 k2 k3 _ (q1 + c1 - q1) (q2 + c2 - q2) (q3 + c3 - q3)) by lia.
+      unfold kern3_of at 2. replace (q1 + c1 - q1 - c1) with 0 by lia.
+      replace (q2 + c2 - q2 - c2) with 0 by lia. replace (q3 + c3 - q3 - c3) with 0 by lia.
+      unfold pad3. destruct (inb k1 (p1 + c1 - q1) && inb k2 (p2 + c2 - q2) && inb k3 (p3 + c3 - q3)).
+      - unfold kern3_of. apply G_peak. lia.
+      - apply G0_pos. }
+    pose proof (div_lt_pos _ _ _ S LT) as D.
+    unfold Qdiv in *. lra.
+  Qed.
+End Profile3.
+
+(* ---------------- the code's kernel for a general affine ---------------- *)
+From NV.C18 Require Import Proofs3.
+
+Section Gauss3.
+  Variable E : Q -> Q.
+  Hypothesis E_compat : forall u v, (u == v)%Q -> (E u == E v)%Q.
+  Hypothesis E_pos : forall u, (0 <= u <= cut)%Q -> (tol < E u)%Q.
+  Hypothesis E_decr : forall u, (0 < u <= cut)%Q -> (E u < E 0)%Q.
+  (* linear part of the affine (rows) and the per-coordinate sigma *)
+  Variables a11 a12 a13 a21 a22 a23 a31 a32 a33 s1 s2 s3 : Q.
+  Hypothesis s1_nz : ~ (s1 == 0)%Q.
+  Hypothesis s2_nz : ~ (s2 == 0)%Q.
+  Hypothesis s3_nz : ~ (s3 == 0)%Q.
+  Let A := [[a11; a12; a13]; [a21; a22; a23]; [a31; a32; a33]].
+  Let sig := [s1; s2; s3].
+  Definition wrow (r1 r2 r3 : Q) (d1 d2 d3 : Z) : Q := (r1 * inject_Z d1 + r2 * inject_Z d2 + r3 * inject_Z d3)%Q.
+  (* the affine is injective on the lattice (an invertible matrix is) *)
+  Hypothesis A_inj : forall d1 d2 d3, ~ (d1 = 0 /\ d2 = 0 /\ d3 = 0) ->
+    ~ (wrow a11 a12 a13 d1 d2 d3 == 0 /\ wrow a21 a22 a23 d1 d2 d3 == 0 /\ wrow a31 a32 a33 d1 d2 d3 == 0)%Q.
+
+  Definition gprofile3 : Z -> Z -> Z -> Q := fun d1 d2 d3 => kval E (half_normsq3 A sig [d1; d2; d3]).
+
+  Lemma hn3_form d1 d2 d3 :
+    (half_normsq3 A sig [d1; d2; d3] ==
+     ((wrow a11 a12 a13 d1 d2 d3 / s1) * (wrow a11 a12 a13 d1 d2 d3 / s1) +
+      (wrow a21 a22 a23 d1 d2 d3 / s2) * (wrow a21 a22 a23 d1 d2 d3 / s2) +
+      (wrow a31 a32 a33 d1 d2 d3 / s3) * (wrow a31 a32 a33 d1 d2 d3 / s3)) * (1 # 2))%Q.
+  Proof.
+    unfold half_normsq3, dotq, A, sig, wrow. cbn [combine map fold_right fst snd]. field. auto.
+  Qed.
+
+  Lemma hn3_nonneg d1 d2 d3 : (0 <= half_normsq3 A sig [d1; d2; d3])%Q.
+  Proof.
+    rewrite hn3_form.
+    pose proof (sqr_nonneg (wrow a11 a12 a13 d1 d2 d3 / s1)).
+    pose proof (sqr_nonneg (wrow a21 a22 a23 d1 d2 d3 / s2)).
+    pose proof (sqr_nonneg (wrow a31 a32 a33 d1 d2 d3 / s3)). lra.
+  Qed.
+
+  Lemma hn3_zero : (half_normsq3 A sig [0%Z; 0%Z; 0%Z] == 0)%Q.
+  Proof. rewrite hn3_form. unfold wrow. cbn [inject_Z]. field. auto. Qed.
+
+  Lemma quot_nz w s : ~ (w == 0)%Q -> ~ (s == 0)%Q -> ~ (w / s == 0)%Q.
+  Proof.
+    intros Hw Hs C. apply Hw. assert (w == w / s * s)%Q as -> by (field; exact Hs). rewrite C. ring.
+  Qed.
+
+  Lemma hn3_pos d1 d2 d3 : ~ (d1 = 0 /\ d2 = 0 /\ d3 = 0) -> (0 < half_normsq3 A sig [d1; d2; d3])%Q.
+  Proof.
+    intros Hd. pose proof (A_inj d1 d2 d3 Hd) as I. rewrite hn3_form.
+    pose proof (sqr_nonneg (wrow a11 a12 a13 d1 d2 d3 / s1)) as N1.
+    pose proof (sqr_nonneg (wrow a21 a22 a23 d1 d2 d3 / s2)) as N2.
+    pose proof (sqr_nonneg (wrow a31 a32 a33 d1 d2 d3 / s3)) as N3.
+    destruct (Qeq_dec (wrow a11 a12 a13 d1 d2 d3) 0) as [Z1|P1].
+    - destruct (Qeq_dec (wrow a21 a22 a23 d1 d2 d3) 0) as [Z2|P2].
+      + destruct (Qeq_dec (wrow a31 a32 a33 d1 d2 d3) 0) as [Z3|P3]; [exfalso; apply I; auto|].
+        pose proof (sqr_pos _ (quot_nz _ _ P3 s3_nz)). lra.
+      + pose proof (sqr_pos _ (quot_nz _ _ P2 s2_nz)). lra.
+    - pose proof (sqr_pos _ (quot_nz _ _ P1 s1_nz)). lra.
+  Qed.
+
+  Lemma gprofile3_nonneg d1 d2 d3 : (0 <= gprofile3 d1 d2 d3)%Q.
+  Proof.
+    unfold gprofile3. set (u := half_normsq3 A sig [d1; d2; d3]).
+    assert (Hu : (0 <= u)%Q) by apply hn3_nonneg.
+    destruct (Qlt_le_dec cut u) as [Gt|L].
+    - rewrite (kval_out E) by lra. lra.
+    - rewrite (kval_in E E_compat) by exact L. pose proof (E_pos u (conj Hu L)). pose proof tol_pos. lra.
+  Qed.
+
+  Lemma gprofile3_peak d1 d2 d3 : ~ (d1 = 0 /\ d2 = 0 /\ d3 = 0) -> (gprofile3 d1 d2 d3 < gprofile3 0 0 0)%Q.
+  Proof.
+    intros Hd. unfold gprofile3.
+    pose proof (hn3_pos d1 d2 d3 Hd) as P. pose proof hn3_zero as Z0.
+    assert (C0 : (half_normsq3 A sig [0%Z; 0%Z; 0%Z] <= cut)%Q) by (rewrite Z0; unfold cut; lra).
+    rewrite (kval_in E E_compat _ C0). rewrite (E_compat _ 0 Z0).
+    assert (E0 : (tol < E 0)%Q) by (apply E_pos; unfold cut; lra).
+    pose proof tol_pos.
+    destruct (Qlt_le_dec cut (half_normsq3 A sig [d1; d2; d3])) as [Gt|L].
+    - rewrite (kval_out E) by lra. lra.
+    - rewrite (kval_in E E_compat) by exact L. apply E_decr. split; assumption.
+  Qed.
+End Gauss3.
